@@ -20,7 +20,13 @@ buffer; C06 G1 / G2 decide it) sits behind it.  With the gssapi feature the code
            `len(buf) < N` passes for N <= 2 (dead code: the frame decoder says Ok(None) there anyway) and holds a complete
            element back for every N > 2 - for ever if the peer sends nothing more: it is neither delivered nor rejected.
     Anything else - an error of the wrapper's own, an answer after the decoder's was dropped, a path that goes on into the
-    token layer - is a violation.
+    token layer - is a violation.  In particular `Ok(None)` on a path on which the frame decoder *delivered* a message (the
+    decoder's answer passed through `.filter(pred)`, a `match` with a guard): the frame is complete and consumed, and Framed
+    reads the socket before it decodes again - reported as such.  A test of the delivered message ID is decided under what the
+    envelope rules establish about every delivered ID (`id_range`: 0 .. maxInt), so `filter(|&(id, _)| id >= 0)` is the
+    decoder's answer (P1) and `id != 0` is not: what is judged is the composition of wrapper and body, in whichever of the two
+    functions the adaptor sits (an adaptor inside the frame decoder's own function - also a new function around the renamed
+    body, which the fact loader expands - is read by C06 G1 / G2 and the envelope trees on that function's paths).
 
 The constructed state is read off the one struct literal that builds the codec: a field initialised to a literal is that
 literal; `Arc::new(RwLock::new(v))` / `Arc::new(Mutex::new(v))` (also through `clone()` of a local bound to it) is a cell that
@@ -183,9 +189,13 @@ def shortest_frame():
     return best
 
 
-def check(ctx, f, D, dp, rule, interp_kw=None):
+def check(ctx, f, D, dp, rule, interp_kw=None, id_range=None):
     """Obligations `rule` (one per kind of path) about Decoder::decode `D` (hirq.Body) around the frame decoder `dp`.
-    Returns the number of paths that are the frame decoder's answer."""
+    Returns the number of paths that are the frame decoder's answer.
+    id_range: (lo, hi) - what the caller's other rules establish about every message ID the frame decoder delivers (the envelope
+    trees, rules/envelope.py: an ID is delivered exactly when its element denotes a number within 0 .. maxInt; C01 R1.message-id-exact,
+    C11 H8).  A test of the delivered ID that Decoder::decode makes on the way (`.filter(|&(id, _)| id >= 0)`) is decided under it:
+    the answer of the composition is judged, wherever the function boundary between the two is drawn."""
     buf_names = [d['name'] for b, d in D.defs.items() if d['kind'] == 'param' and d['name'] != 'self']
     buf = ('param', buf_names[0])
     codec = codec_type(f, D)
@@ -193,6 +203,13 @@ def check(ctx, f, D, dp, rule, interp_kw=None):
     fields = [fl['name'] for v in (f.items.get(codec) or {}).get('variants', []) for fl in v['fields']]
     where = 'on a connection without a security layer (the codec as constructed: %s) ' % ', '.join('%s = %s' % (k, absx.fmt(v[1] if v[0] == 'cell' else v)) for k, v in sorted(state.items())) if fields else ''
     cc = ConstructedCodec(state)
+    def decoder_call(I, cal, args, node, st):
+        # the frame decoder's answer (the opaque call term, recorded as every call is) with the bounds of the ID it delivers
+        if cal == dp and id_range is not None:
+            t = ('call', cal, tuple(args), node.get('id'))
+            delivered_id = ('field', ('variant', ('variant', t, 'Ok', 0), 'Some', 0), '0')
+            return [Out('val', t, st.event(('call', cal, tuple(args), node)).assume(('range', delivered_id, id_range[0], id_range[1]), True))]
+        return None
     smin, sx = shortest_frame()
     n_dec = n_pre = 0
     bad = {}          # message -> [x]
@@ -217,7 +234,7 @@ def check(ctx, f, D, dp, rule, interp_kw=None):
                        if e[0] == 'call' and e[1] != dp and e[1] != ACQUIRE[0] and e[1].rsplit('::', 1)[-1] not in OBSERVERS + ('clone',) and any(rooted(a) for a in e[2])})
     for x in range(256):
         fb = framelen.FramedBuffer(buf, x, None)
-        I = framelen.FramedInterp(f, D, summaries=[fb, cc], domain=fb, field_hook=cc.field, combinators=True, unroll=8, **(interp_kw or {}))
+        I = framelen.FramedInterp(f, D, summaries=[fb, cc, decoder_call], domain=fb, field_hook=cc.field, combinators=True, unroll=8, **(interp_kw or {}))
         H = framelen.HeaderClass(buf, x)
         for o in I.run():
             if o.kind == 'div':
@@ -246,6 +263,15 @@ def check(ctx, f, D, dp, rule, interp_kw=None):
                     held.setdefault(cond, []).append((x, H.true_len().show()))
                 continue
             what = 'drops the frame decoder\'s answer and returns %s' % absx.fmt(v)[:60] if dcalls else 'returns %s without asking the frame decoder' % absx.fmt(v)[:60]
+            if v == NEED_MORE and len(dcalls) == 1 and dcalls[0][2] == (buf,):
+                msg_t = ('variant', ('call', dp, (buf,), dcalls[0][3].get('id')), 'Ok', 0)
+                if any(a == ('is', msg_t, 'Some') and tr for a, tr in o.st.pc):
+                    # the decoder delivered a message - the frame is complete and has been taken out of the buffer - and decode says Ok(None)
+                    tests = [('' if tr else 'not ') + absx.fmt(a)[:60].replace(absx.fmt(('variant', msg_t, 'Some', 0)), 'message') for a, tr in o.st.pc
+                             if a[0] not in ('is', 'range') and absx.leaves(a, lambda z: z == msg_t)]
+                    what = ('answers Ok(None) although the frame decoder delivered a message%s: the frame is complete and already taken out of the buffer, and to the transport Ok(None) means '
+                            '"nothing to decode yet, read the socket first" - the message is neither delivered nor rejected, and complete frames buffered behind it wait for the peer\'s next byte'
+                            % (' (when %s)' % ', '.join(tests[:2]) if tests else ''))
             if dcalls and dcalls[0][2] and dcalls[0][2][0] == buf and len(dcalls[0][2]) > 1:
                 what = 'hands the frame decoder more than the caller\'s buffer (%s): its answer depends on state kept across calls' % ', '.join(absx.fmt(a)[:40] for a in dcalls[0][2][1:])
             elif dcalls and dcalls[0][2] != (buf,):
